@@ -13,19 +13,27 @@ class Boom(Exception):
     pass
 
 
-def enc(v):
+def enc(v, _budget=None):
+    """canonical encoding; bounded (a broken implementation can turn the document into a DAG
+    or a cycle whose unfolding is exponential / infinite)"""
+    if _budget is None:
+        _budget = [20000]
+    _budget[0] -= 1
+    if _budget[0] < 0:
+        return ["?", "too-big"]
     if v is None or isinstance(v, bool) or isinstance(v, str):
         return v
     if isinstance(v, int):
         return v
     if isinstance(v, float):
         n = v * 2
-        assert n == int(n), f"non half-integer float {v!r}"
+        if n != int(n):
+            return ["?", "float"]
         return ["f", int(n)]
     if isinstance(v, list):
-        return ["a", [enc(x) for x in v]]
+        return ["a", [enc(x, _budget) for x in v]]
     if isinstance(v, dict):
-        return ["o", [[k, enc(x)] for k, x in v.items()]]
+        return ["o", [[k, enc(x, _budget)] for k, x in v.items()]]
     return ["?", repr(type(v))]
 
 
@@ -108,6 +116,22 @@ def node_full(m):
             "u": par.path_as_str if par is not None else None}
 
 
+class Named:
+    """a callable with a stable repr (no addresses), so that renderings are comparable"""
+    __slots__ = ("fn", "label")
+
+    def __init__(self, fn, label):
+        self.fn, self.label = fn, label
+
+    def __call__(self, *a):
+        return self.fn(*a)
+
+    def __repr__(self):
+        return self.label
+
+    __str__ = __repr__
+
+
 class Builder:
     """Builds treepath expressions and predicates of the closed language, logging every
     observable call into self.log."""
@@ -125,8 +149,7 @@ class Builder:
             log.append(["F", name, enc(x), depth])
             return f(x)
 
-        g.__name__ = name
-        return g
+        return Named(g, name)
 
     def steps(self, steps, p=None, depth=0):
         p = self.root if p is None else p
@@ -167,7 +190,7 @@ class Builder:
                         depth])
             return pred(m)
 
-        return w
+        return Named(w, "L(" + repr(pred) + ")")
 
     def arg(self, a, depth=0):
         """the first argument of has / has_not, or an item of has_all / has_any.
@@ -213,19 +236,20 @@ class Builder:
                         return out(o)
                 return out(dflt)
 
-            return tab
+            return Named(tab, "tab:" + sel)
         if k == "nb":
             kind, steps = p[1], p[2]
             expr = self.steps(steps, depth=depth + 1)
+            lab = "nb:" + kind + ":" + str(expr)
             if kind == "m":
-                return lambda m: get_match(expr, m, must_match=False) is not None
+                return Named(lambda m: get_match(expr, m, must_match=False) is not None, lab)
             if kind == "v":
-                return lambda m: get(expr, m, default=None)
+                return Named(lambda m: get(expr, m, default=None), lab)
             if kind == "mt":   # passes the tracer explicitly
-                return lambda m: get_match(expr, m, must_match=False, trace=self.tracer) is not None
+                return Named(lambda m: get_match(expr, m, must_match=False, trace=self.tracer) is not None, lab)
             if kind == "vt":
-                return lambda m: get(expr, m, default=None, trace=self.tracer)
-            return lambda m: get(expr, m)
+                return Named(lambda m: get(expr, m, default=None, trace=self.tracer), lab)
+            return Named(lambda m: get(expr, m), lab)
         raise ValueError(f"bad pred {p!r}")
 
 
